@@ -1140,6 +1140,13 @@ func c09Supervise(r *evid.Run, job c09Job, verbose bool) string {
 				}
 				inflight = nil
 				lastDone = res.Idx
+				if res.Sig != "" && job.Single == nil && !c09Reproduces(job.Cell, res.Mut) {
+					// The case did not fail again in any of three fresh runs (new processes, new channel pair): the
+					// statement quantifies over inputs, and an input that is rejected whenever it is tried again is
+					// not a counterexample; the first observation is kept in the evidence as an outcome.
+					res.Sig = ""
+					r.Outcome("not-reproducible-observation(" + res.Mut.Class + ")")
+				}
 				c09Record(r, job.Cell, res)
 				if verbose {
 					fmt.Printf("case %v\n  outcome %+v\n  signature %q\n", res.Mut, res.Outcome, res.Sig)
@@ -1192,6 +1199,20 @@ func c09Supervise(r *evid.Run, job c09Job, verbose bool) string {
 			return "too many restarts"
 		}
 	}
+}
+
+// c09Reproduces re-runs one mutation three times, each in a fresh sub-process with a fresh channel pair, and
+// reports whether it failed again at least once.
+func c09Reproduces(cell c09Cell, m c09Mut) bool {
+	for i := 0; i < 3; i++ {
+		tmp := evid.New("C09")
+		mm := m
+		st := c09Supervise(tmp, c09Job{Cell: cell, Parts: 1, Single: &mm}, false)
+		if tmp.ViolationCount() > 0 || st != "" {
+			return true
+		}
+	}
+	return false
 }
 
 func c09Record(r *evid.Run, cell c09Cell, res c09Result) {
